@@ -479,7 +479,7 @@ def set_pointer_width(bits):
     spec.INTS["usize"] = (bits, False)
 
 
-JS_E2E_PROFILE = dict(out_structs=True, owned_slices=True, opt_owned=True, strs=False)
+JS_E2E_PROFILE = dict(out_structs=True, owned_slices=True, opt_owned=True)
 
 
 def scalar_leaves(prog, t):
